@@ -4,10 +4,13 @@ set -u
 P="$1"; shift
 cd /repo && git diff --quiet || { echo "repo dirty"; exit 2; }
 git -C /repo apply "$P" || { echo "patch does not apply"; exit 2; }
+# evidence files record the unchanged tree: keep them aside while the changed tree is checked
+rm -rf /verif/.evidence.keep && cp -r /verif/evidence /verif/.evidence.keep
 for prop in "$@"; do
   out=$(cd /verif && ./check $prop 2>&1)
   echo "== $prop exit=$? : $(echo "$out" | tail -1 | cut -c1-150)"
   echo "$out" | grep "^VIOLATION" | sed 's/replay=[^ ]* //' | cut -c1-230 | head -8
 done
 git -C /repo apply -R "$P"
+rm -rf /verif/evidence && mv /verif/.evidence.keep /verif/evidence
 git -C /repo diff --quiet && echo "reverted clean"
